@@ -5,12 +5,14 @@ from . import common
 
 LEVEL = "other"
 EXPLANATION = (
-    "Decides the last sentence of the property only - `negative counts and non-positive start "
+    "Decides the last sentence of the property - `negative counts and non-positive start "
     "positions raise Illegal function call (5)`: (R1) in the run function of each string built-in "
     "every argument the property calls a count (LEFT$ 2, RIGHT$ 2, MID$ 3, SPACE$ 1, STRING$ 1) is "
     "read through VariantCasts::to_non_negative_int and every start position (MID$ 2, INSTR 1 of 3) "
     "through to_positive_int; (R2) interval dataflow over those two accessors: the value converted "
-    "to usize on the success path is >= 0 resp. >= 1 and the other path builds IllegalFunctionCall.")
+    "to usize on the success path is >= 0 resp. >= 1 and the other path builds IllegalFunctionCall; and "
+    "one structural part of `counts clamped to the length`: (R3) the end of every substring range "
+    "handed to str::get in the string built-ins is proved <= LEN(s).")
 NOT_DECIDED = [
     "LEFT$/RIGHT$/MID$ substring equations, INSTR minimality, LEN additivity, UCASE$/LCASE$/LTRIM$/RTRIM$ "
     "laws, SPACE$ = STRING$, VAL(STR$(k)) = k (value-level string arithmetic)",
@@ -111,7 +113,46 @@ def r2_accessor_ranges(ctx, rule="C17.R2"):
     ctx.require(rule, 4)
 
 
+def r3_substring_ranges(ctx, rule="C17.R3"):
+    """`counts clamped to the length`: the string built-ins cut substrings with str::get(range)
+    and turn a None (range outside the string) into "".  That idiom is right only when the *end* of
+    the range can never exceed the length - then None means the start is past the end, for which ""
+    is the answer.  Each end handed to str::get in interpreter/built_ins is proved <= len(s) from
+    the comparisons that dominate its definitions (an unclamped end silently yields "")."""
+    from .. import bounds
+    prog = ctx.prog
+    n = 0
+    for fn in sorted(prog.fns.values(), key=lambda f: f.id):
+        if fn.body is None or fn.crate != "rusty_basic" or "interpreter::built_ins::" not in fn.path:
+            continue
+        for b, t in fn.body.calls():
+            if mir.callee_path(t) != "core::str::<impl str>::get" or len(t["args"]) != 2:
+                continue
+            g = ((t.get("f") or {}).get("k") or {}).get("gargs") or []
+            kind = (g[0] if g else "").split("<")[0].split("::")[-1]
+            if kind not in ("Range", "RangeTo", "RangeInclusive", "RangeToInclusive"):
+                continue          # start.. has no end to clamp
+            p = mir.op_place(t["args"][1])
+            d = fn.body.single_def(p[0]) if p is not None else None
+            if d is None or d[1] == "T" or d[2]["r"].get("k") != "agg":
+                ctx.unknown(rule, "%s:%s:range" % (rule, fn.name), fn.loc, "range value not built in place")
+                continue
+            ops = d[2]["r"]["ops"]
+            end_op = ops[-1]
+            recv = t["args"][0]
+            ok, why = bounds.prove_upper_bound_all_defs(
+                prog, fn, b, end_op, lambda ex: ("len", bounds._strip(ex.of_operand(recv))))
+            n += 1
+            ctx.decide(ok, rule, "%s:%s:end-within-length" % (rule, fn.name), "%s:%s" % (fn.file, t.get("ln")),
+                       why, "the end of the substring range is not proved <= LEN(s) (%s): for a count that runs "
+                       "past the end of the string str::get returns None and the built-in answers \"\" instead "
+                       "of the remaining characters" % why)
+    ctx.analysed_units(rule, ranges=n)
+    ctx.require(rule, 1)
+
+
 def run(ctx):
     common.install(ctx)
     r1_accessors(ctx)
     r2_accessor_ranges(ctx)
+    r3_substring_ranges(ctx)
